@@ -170,6 +170,10 @@ fn select_by_path_from_canon_map(
 
             MapLensResult::new(value, tetraplet)
         }
+        (Ok(body_part), None) => {
+            // csm.$.non_existing_key.[0]... case: the key group is empty, the rest of the lens applies to it
+            select_by_path_from_canon_map_stream(std::iter::empty(), &body_part, exec_ctx)?
+        }
         _ => {
             // csm.$.non_existing_key case
             let prefix_with_path = false;
